@@ -1005,7 +1005,12 @@ func hashBuilderRegistration(b BuilderRegistration, hh ssz.HashWalker) error {
 func hashRegistration(r Registration, hh ssz.HashWalker) error {
 	indx := hh.Index()
 
-	// Field (0) 'FeeRecipient'
+	// Field (0) 'FeeRecipient' Bytes20 (empty when there is no registration).
+	// PutBytes zero-pads to a 32 byte chunk, so the length must be checked for the hash to bind the value.
+	if l := len(r.FeeRecipient); l != 0 && l != addressLen {
+		return errors.New("invalid fee recipient length", z.Int("length", l))
+	}
+
 	hh.PutBytes(r.FeeRecipient)
 
 	// Field (1) 'GasLimit' uint64
